@@ -68,7 +68,8 @@ def _nontrivial(bl):
 def run(tier, lists_override=None):
     rep = common.Report("C15", tier)
     work = common.scratch("verif.c15.")
-    cfgs = ["MCMetaBlocks_quick.cfg"] if tier == "quick" else ["MCMetaBlocks_thorough.cfg", "MCMetaBlocks_thorough_b.cfg", "MCMetaBlocks_thorough_c.cfg"]
+    cfgs = ["MCMetaBlocks_quick.cfg", "MCMetaBlocks_dup_quick.cfg"] if tier == "quick" else \
+        ["MCMetaBlocks_thorough.cfg", "MCMetaBlocks_thorough_b.cfg", "MCMetaBlocks_thorough_c.cfg", "MCMetaBlocks_dup.cfg"]
     cfg = " + ".join(cfgs)
     lists, seen = [], set()
 
@@ -122,7 +123,8 @@ def run(tier, lists_override=None):
         "traces_validated_against_impl": len(recs),
         "evaluations": len(recs),
         "distinct_nontrivial": distinct,
-        "rule": "every block list of length <= MaxLen over the constants of %s is enumerated by TLC; non-trivial = >= 2 blocks or a dependency; distinct by block list" % cfg,
+        "rule": "every block list of length <= MaxLen over the constants of %s (and, in the *_dup configurations, every list of exactly four blocks over three names "
+                "with name-specific scripts and up to two dependencies each) is enumerated by TLC; non-trivial = >= 2 blocks or a dependency; distinct by block list" % cfg,
         "exhaustive": True,
         "design_states": design.distinct,
         "rendered_files_checked": len(sample),
